@@ -17,4 +17,4 @@ require (
 	gopkg.in/yaml.v3 v3.0.1 // indirect
 )
 
-replace github.com/lightninglabs/neutrino/cache => /tmp/wt-c16/cache
+replace github.com/lightninglabs/neutrino/cache => /repo/cache
